@@ -255,6 +255,44 @@ theorem d8_witness :
       = [("Broken", []), ("Monthly", ["A"])] := by
   decide +kernel
 
+/-! ### variables: evaluated for THIS merchant, in file order (no value is shared between merchants) -/
+
+/-- `evaluate_variables` over a file `a ++ b` = the block `a`, then the block `b` on top of what `a` produced -/
+theorem evalVariables_append (c : Bool) (o : Oracles) (txns : List Txn) (pd : List (String × Val))
+    (a b : List (String × Expr)) (res : Vars) :
+    evalVariables c o txns pd (a ++ b) res =
+      (match evalVariables c o txns pd a res with
+       | .ok g => evalVariables c o txns pd b g
+       | .error e => .error e) := by
+  induction a generalizing res with
+  | nil => simp [evalVariables]
+  | cons hd tl ih =>
+    obtain ⟨n, e⟩ := hd
+    simp only [List.cons_append, evalVariables]
+    split <;> first | exact ih _ | rfl
+
+/-- **A derived global sees this merchant's values.** The global declared after the block `pre` is evaluated over the
+SAME merchant's payments `txns`, in the environment `g` that `pre` produced for that merchant — whether or not its own
+text mentions a primitive. (So a variable written purely in terms of other variables, e.g. `is_habit = monthly > limit`
+after `monthly = total / months`, is as merchant-dependent as `monthly` is: no global may be evaluated once for all
+merchants unless every variable it reaches is a constant.) ExpressionError ⇒ the variable is `None` for this merchant. -/
+theorem derived_global_per_merchant (c : Bool) (o : Oracles) (txns : List Txn) (pd : List (String × Val))
+    (pre : List (String × Expr)) (n : String) (e : Expr) :
+    evalVariables c o txns pd (pre ++ [(n, e)]) [] =
+      (match evalVariables c o txns pd pre [] with
+       | .error err => .error err
+       | .ok g =>
+         match evalRoot c o { txns := txns, variables := g, period := pd } e with
+         | .ok x => .ok (setKey n x g)
+         | .error (.expr _) => .ok (setKey n (.v .none) g)
+         | .error err => .error err) := by
+  rw [evalVariables_append]
+  cases evalVariables c o txns pd pre [] with
+  | error err => rfl
+  | ok g =>
+    simp only [evalVariables]
+    split <;> simp_all
+
 /-! ### the documented primitives -/
 
 /-- `months` = number of distinct active months: `monthSet` enumerates the `%Y-%m` keys of the dated
@@ -344,6 +382,14 @@ example : monthSet (ctxOf mA) = ["2024-12", "2025-01"] ∧ monthSum "2025-01" (c
 -- a view variable written with an upper-case letter is unreachable (the lookup lower-cases the name)
 example : (match holdsE true noOracle [("Limit", .const (.int 100))] [] (ctxOf mB)
     ⟨"Up", .cmp (.name "total") [.mk .gt (.name "Limit")], []⟩ with | .ok b => !b | _ => false) = true := by decide +kernel
+
+-- a global that depends on the merchant only THROUGH another variable: `tot = total`, `is_big = TOT > limit` (reference in another
+-- letter case), view `[Big2] filter: is_big` — evaluated per merchant: A (30) is out, B (500) is in
+def cfgDerived : Config :=
+  ⟨[("limit", .const (.int 100)), ("tot", .name "total"), ("is_big", .cmp (.name "TOT") [.mk .gt (.name "limit")])],
+   [⟨"Big2", .name "is_big", []⟩, ⟨"Small2", .unop .not (.name "Is_Big"), []⟩]⟩
+example : (classifyViews true noOracle lowerAscii cfgDerived 12 [mA, mB, mC]).map (fun kv => (kv.1, kv.2.map (·.name)))
+    = [("Big2", ["B"]), ("Small2", ["A"])] := by decide +kernel
 
 end Examples
 
